@@ -562,6 +562,8 @@ def usage_oracle(c):
     if o.get("crash"):
         return "crash", "the code under test panicked: %s" % o["crash"][:200]
     if o["ok"]:
+        if f.get("otherkey"):
+            return "accepted-under-other-key", "%s: accepted" % c.get("note", "")
         for fact, key in (("genuine", "accepted-not-genuine"), ("intime", "accepted-out-of-time"),
                           ("consent", "accepted-without-consent")):
             if not f[fact]:
